@@ -1,9 +1,7 @@
 SPECIFICATION Spec
-CONSTANTS MaxRuns = 4 MaxTouch = 99
-  Scens <- ScenPlain1
-  Settings <- SettingsAll
+CONSTANTS
+  Plans <- PlansThoroughMC1
   CreatedSetsChanged = TRUE
-  Reuses = {FALSE, TRUE}
   AutoReload = TRUE
   KeepHistory = FALSE
 VIEW view
